@@ -21,8 +21,8 @@ type parseCall struct {
 	Limit int    `json:"limit"`
 }
 
-var histExecDocs = []string{"{ a }", "query Q ( $v : Int = 1 ) { a ( x : [ $v , 2 ] ) @d ... F } fragment F on T { b }", "{ a ( }", "# c\n{ a b c d e f }"}
-var histSDLDocs = []string{"scalar A", "type A implements I & J @d { f ( a : Int = 1 ) : [ A ! ] } extend type A { g : Int }", "type A {", "# c\nenum E { A B C D }"}
+var histExecDocs = []string{"{ a }", "{ a }\n# trailing comment", "query Q ( $v : Int = 1 ) { a ( x : [ $v , 2 ] ) @d ... F } fragment F on T { b }", "{ a ( }", "# c\n{ a b c d e f }"}
+var histSDLDocs = []string{"scalar A", "scalar A\n# trailing comment", "type A implements I & J @d { f ( a : Int = 1 ) : [ A ! ] } extend type A { g : Int }", "type A {", "# c\nenum E { A B C D }"}
 
 func (pc parseCall) String() string {
 	switch pc.Entry {
@@ -41,28 +41,28 @@ func (pc parseCall) run() string {
 			if err != nil {
 				out = "error: " + err.Error()
 			} else {
-				out = projExec(d)
+				out = projExec(d) + "\n" + ast.Dump(d) // the dump also holds the comments attached to the nodes
 			}
 		case "ParseQueryWithTokenLimit":
 			d, err := parser.ParseQueryWithTokenLimit(&ast.Source{Name: "q", Input: histExecDocs[pc.Doc]}, pc.Limit)
 			if err != nil {
 				out = "error: " + err.Error()
 			} else {
-				out = projExec(d)
+				out = projExec(d) + "\n" + ast.Dump(d) // the dump also holds the comments attached to the nodes
 			}
 		case "ParseSchema":
 			d, err := parser.ParseSchema(&ast.Source{Name: "s", Input: histSDLDocs[pc.Doc]})
 			if err != nil {
 				out = "error: " + err.Error()
 			} else {
-				out = projSDL(d)
+				out = projSDL(d) + "\n" + ast.Dump(d)
 			}
 		case "ParseSchemaWithLimit":
 			d, err := parser.ParseSchemaWithLimit(&ast.Source{Name: "s", Input: histSDLDocs[pc.Doc]}, pc.Limit)
 			if err != nil {
 				out = "error: " + err.Error()
 			} else {
-				out = projSDL(d)
+				out = projSDL(d) + "\n" + ast.Dump(d)
 			}
 		case "ParseSchemas":
 			d, err := parser.ParseSchemas(&ast.Source{Name: "s", Input: histSDLDocs[pc.Doc], BuiltIn: pc.Limit == 1}, &ast.Source{Name: "t", Input: histSDLDocs[0]})
@@ -125,7 +125,7 @@ func histCase(c *explore.Ctx, s *explore.SubStats, alone map[parseCall]string, c
 func histSub(c *explore.Ctx) {
 	depth := c.Pick(3, 4)
 	ops := histAlphabet()
-	s := c.Sub("call-histories", fmt.Sprintf("every sequence of ≤ %d calls over %d (entry point, document, limit) combinations: ParseQuery / ParseQueryWithTokenLimit / ParseSchema / ParseSchemaWithLimit / ParseSchemas on 4 documents each (short, long, invalid, commented) with limits {1, 3, 1000}", depth, len(ops)),
+	s := c.Sub("call-histories", fmt.Sprintf("every sequence of ≤ %d calls over %d (entry point, document, limit) combinations: ParseQuery / ParseQueryWithTokenLimit / ParseSchema / ParseSchemaWithLimit / ParseSchemas on 5 documents each (short, ending in a comment, long, invalid, starting with a comment) with limits {1, 3, 1000}", depth, len(ops)),
 		"every call returns what the same call returns on its own (outcome, error text, tree): the parser keeps no state between calls", "every sequence")
 	if s == nil {
 		return
